@@ -168,7 +168,9 @@ class Check:
                   coverage=cov, assumptions=self.assumptions, wall_s=round(wall, 2),
                   violations=len(seen_sig),
                   known_findings=[k for k in sorted(listed)])
-        with open(os.path.join(EVID, "%s.json" % self.prop), "w") as f:
+        # a partial run (--only <scenario>) is a development aid: it must not replace the evidence of the registered command
+        evname = "%s.json" % self.prop if not getattr(self, "only", None) else ".partial-%s.json" % self.prop
+        with open(os.path.join(EVID, evname), "w") as f:
             json.dump(jsonable(ev), f, indent=1, sort_keys=True)
         for ln in lines:
             print(ln)
